@@ -5,6 +5,7 @@ import statelib
 import fbgen
 from framework import Unit
 
+PROPS_FILES = ['C04', 'C04tb']
 IMPORTS = 'From Gen Require Import enums opsyn core exec conc.'
 SPEC_IMPORTS = 'From ArmV Require Import Spec.Pseudocode Spec.Arch Spec.MachineView Spec.Branches.'
 PCS = [0, 4, 8, 0x100, 0x7FFFFFFC, 0x80000000, 0xFFFFFFF0, 0xFFFFFFF4, 0xFFFFFFF8, 0xFFFFFFFC]
@@ -185,5 +186,6 @@ def units():
             Unit('branch_offsets', off, ['Proofs/BranchProofs.v'], [], offset_cases, IMPORTS,
                  SPEC_IMPORTS),
             Unit('pc_advance', adv, ['Proofs/BranchProofs.v'], ['arm_v6.ArmV6.increment_pc_if_needed'], advance_cases, IMPORTS, SPEC_IMPORTS),
-            Unit('table_branch', [], [], [], table_branch_cases, IMPORTS,
+            Unit('table_branch', ['C04_TBB_TBH'], ['Proofs/TableBranchProofs.v'], ['opcodes.abstract_opcodes.tbb_tbh.TbbTbh.execute'],
+                 table_branch_cases, IMPORTS,
                  SPEC_IMPORTS + '\nFrom ArmV Require Import Spec.Hub Spec.Memory Spec.BlockTransfer Spec.TableBranch.')]
